@@ -670,7 +670,7 @@ def multiply_impls(ctx, facts, rule):
 
 
 # ---------------------------------------------------------------------------------------------
-VALUE_WRAP = re.compile(r"(Deref::deref|Vec::<T, A>::as_slice|AsRef::as_ref|Borrow::borrow|Clone::clone|slice::<impl \[T\]>::to_vec|Try::branch|Future::poll|Pin::<Ptr>::new_unchecked|IntoFuture::into_future|From::from|Into::into)$")
+VALUE_WRAP = re.compile(r"(Deref::deref|Vec::<T, A>::as_slice|AsRef::as_ref|Borrow::borrow|Clone::clone|slice::<impl \[T\]>::to_vec|Try::branch|Future::poll|Pin::<Ptr>::new_unchecked|IntoFuture::into_future|IntoIterator::into_iter|From::from|Into::into)$")
 
 
 def is_value_of(e, target_rx):
